@@ -21,7 +21,7 @@ type Txn struct {
 	Mail   string      `json:"mail"`   // argument after "MAIL "
 	Sender string      `json:"sender"` // the address inside <>, as the model knows it
 	Rcpts  []string    `json:"rcpts"`  // addresses put inside "RCPT TO:<...>"
-	End    string      `json:"end"`    // data | rset | ehlo | mail | quit | drop | none
+	End    string      `json:"end"`    // data | rset | ehlo | mail | quit | drop | dropdata | none
 	Msg    *hx.MailMsg `json:"msg,omitempty"`
 	TooBig bool        `json:"too_big,omitempty"`
 }
@@ -73,7 +73,7 @@ var txnGen = rapid.Custom(func(t *rapid.T) Txn {
 		}
 		x.Rcpts = append(x.Rcpts, r)
 	}
-	x.End = rapid.SampledFrom([]string{"data", "data", "data", "data", "data", "bigdata", "rset", "ehlo", "mail", "quit", "drop", "none"}).Draw(t, "end")
+	x.End = rapid.SampledFrom([]string{"data", "data", "data", "data", "data", "bigdata", "rset", "ehlo", "mail", "quit", "drop", "dropdata", "dropdata", "none"}).Draw(t, "end")
 	if x.End == "data" {
 		x.Msg = hx.MailMsgGen(hx.SimpleBodyGen, 10).Draw(t, "msg")
 	}
@@ -287,6 +287,12 @@ func run(c Case) *hx.Outcome {
 				_, _ = cl.Cmd("QUIT")
 				ended = true
 			case "drop":
+				ended = true
+			case "dropdata":
+				// the client goes away in the middle of the data: the transaction never completed
+				if r, err := cl.Cmd("DATA"); err == nil && r.Code == 354 {
+					_ = cl.Write([]byte("Subject: abandoned\r\n\r\nfirst line, and then nothing more\r\n"))
+				}
 				ended = true
 			}
 			if !check(where) || ended {
